@@ -848,7 +848,8 @@ ScrubStripe(C, fs, par, p, now) ==
         derr |-> {<<p, d>> : d \in mism \cup readerr}, perr |-> {<<p, l>> : l \in pbad \cup short}, silent |-> silent, err |-> err]
 
 PlanSel(C, plan) == {p \in 0..(BMax(C) - 1) : InfoAt(C, p).p /\
-                        (InfoAt(C, p).bad \/ plan = "full" \/ (plan = "new" /\ InfoAt(C, p).js))}
+                        \* pct100 = the percentage plan with -p 100 -o 0: every stripe that has info (ScrubPlan.tla has the general plan)
+                        (InfoAt(C, p).bad \/ plan \in {"full", "pct100"} \/ (plan = "new" /\ InfoAt(C, p).js))}
 
 ScrubResult(C0, fs, par, sel, now, present) ==
     LET C == WithIndex(C0)
@@ -867,7 +868,13 @@ ScrubResult(C0, fs, par, sel, now, present) ==
                           THEN [C0.cf[d][n].bl[i] EXCEPT !.h = HashOf(fs[d][n].b[i], BlkLen(C0.cf[d][n].sz, i))]
                           ELSE C0.cf[d][n].bl[i]]]]]
        IN
-       [C |-> [cf |-> cf1, del |-> C0.del, info |-> [q \in 1..Len(C0.info) |-> IF (q - 1) \in sel THEN R[q - 1].info ELSE C0.info[q]]],
+       [C |-> [cf |-> cf1,
+               \* the hashes of deleted blocks of a migrated stripe are not converted: they stay hashes of the previous
+               \* function and can never match again ("STALE")
+               del |-> IF migrated = {} THEN C0.del ELSE
+                       [d \in D |-> [q \in 1..Len(C0.del[d]) |-> IF (q - 1) \in migrated /\ C0.del[d][q] \notin {"NONE", "ZERO", "INVALID"}
+                                                                 THEN "STALE" ELSE C0.del[d][q]]],
+               info |-> [q \in 1..Len(C0.info) |-> IF (q - 1) \in sel THEN R[q - 1].info ELSE C0.info[q]]],
         out |-> [exit |-> IF \E p \in sel : R[p].silent \/ R[p].err THEN "error" ELSE "ok",
                  derr |-> UNION {R[p].derr : p \in sel}, perr |-> UNION {R[p].perr : p \in sel},
                  marked |-> {p \in sel : R[p].silent}]]
